@@ -15,7 +15,7 @@ RULE = (
     "cases = (tree <= 10 nodes with names as in C07 plus duplicate sibling names and names ending in a newline, separator, pathattr, "
     "ordered list of queries (ignorecase, start node, pattern, clear-cache flag)). The queries of one case run one after the other on "
     "the shared class-level pattern cache (cleared only at the start of the case or when a query says so), each in relaxed and strict "
-    "mode, so every case is also a cache history; generated cases contain up to 40 queries with adjacent ignorecase pairs on the same "
+    "mode, so every case is also a cache history (in a quarter of the generated cases every query is preceded by get() of the same text); generated cases contain up to 40 queries with adjacent ignorecase pairs on the same "
     "pattern, which crosses the 20-entry eviction. Pattern components come from {tree names, a name with one character replaced by '?', "
     "prefix+'*', '*'+suffix, '*', '?', '?*', '**', '..', '.', '', unknown literals, literals with regex metacharacters}. Exhaustive part: "
     "all shapes <= 4 (quick) / 5 (thorough) nodes x 3 naming schemes x every start x every relative and absolute pattern of <= 3 / <= 4 "
@@ -162,6 +162,13 @@ def _once(case, acc, nodes, labels, clear):
         if pattern.startswith(case["sep"]) and len(comps) > 1 and comps[1] == "**":
             acc.note("absolute_pattern_with_doublestar_root_skipped")
             continue
+        if case.get("get_first"):
+            # the same text resolved as a literal path just before: nothing get() leaves behind may change what the pattern means
+            try:
+                Resolver(case["pathattr"], ignorecase=ic, relax=True).get(nodes[start], pattern)
+            except Exception:  # noqa: BLE001 - get's own behaviour is C07's business
+                pass
+            acc.tag("queries_preceded_by_get_of_the_same_text")
         nt, ne = check_query(case, nodes, labels, preorder_index, ic, nodes[start], pattern, unique[ic], acc, case_for_kf)
         nontrivial = nontrivial or nt
         nonempty += ne
@@ -228,7 +235,7 @@ def random_cases(draw):
         again = draw(st.lists(st.integers(0, len(queries) - 1), max_size=15))
         queries = queries + [queries[i] for i in again]
     muts = draw(strategies.tree_mutations(max_ops=2, rename_values=st.sampled_from(texts)))
-    return {"shape": shape, "names": names, "sep": sep, "pathattr": draw(st.sampled_from(["name", "name", "id"])), "queries": queries, "keep_cache": draw(st.booleans()), "mutations": muts}
+    return {"shape": shape, "names": names, "sep": sep, "pathattr": draw(st.sampled_from(["name", "name", "id"])), "queries": queries, "keep_cache": draw(st.booleans()), "mutations": muts, "get_first": draw(st.integers(0, 3)) == 0}
 
 
 ENUM_COMPS = ["a", "b", "a*", "?", "*", "**", "..", ".", "", "zz", "[a]"]
